@@ -223,6 +223,13 @@ ReleaseNull(rel) ==
 
 SetTypeCheck(b) == /\ typeCheck' = b /\ res' = Res("void", "none", -1, "na") /\ last' = [op |-> "config"]
                    /\ UNCHANGED <<blk, cur>>
+\* MemoryLeakDetector::enable / disable / startChecking / stopChecking: the period ("disabled" before a MemoryLeakWarningPlugin exists and
+\* between disable() and enable(), "enabled" between tests, "checking" inside one) only labels the records made from then on - it decides
+\* which blocks a later leak report is about (LeakTable), never how a block is laid out, checked, reported or poisoned: no variable of
+\* this module changes, and every action above is enabled and answers the same in every period
+SetPeriod(p) == /\ p \in {"disabled", "enabled", "checking"}
+                /\ res' = Res("void", "none", -1, "na") /\ last' = [op |-> "config"]
+                /\ UNCHANGED <<blk, typeCheck, cur>>
 \* setCurrentNewAllocator / NewArrayAllocator / MallocAllocator with another allocator object of the same family
 SetAlloc(f, v) == /\ f \in Families
                   /\ cur' = [cur EXCEPT ![f] = v] /\ res' = Res("void", "none", -1, "na") /\ last' = [op |-> "config"]
@@ -240,6 +247,7 @@ Next == \/ \E ep \in Eps, s \in Slots, z \in AllSizes, f \in Faults : Alloc(ep, 
         \/ \E rel \in RelEps, s \in Slots, off \in 0..MaxOff : Release(rel, s, off)
         \/ \E rel \in RelEps : ReleaseForeign(rel) \/ ReleaseNull(rel)
         \/ \E b \in BOOLEAN : SetTypeCheck(b)
+        \/ \E p \in {"disabled", "enabled", "checking"} : SetPeriod(p)
         \/ \E f \in Families, v \in Variants : SetAlloc(f, v)
 Spec == Init /\ [][Next]_vars
 
